@@ -4,6 +4,7 @@ import Driver.C07
 import Driver.C02
 import Driver.C11
 import Driver.C17
+import Driver.C10
 open Driver
 
 /-- dispatch one request line; returns the output lines -/
@@ -19,6 +20,8 @@ def dispatch (line : String) : IO (List String) := do
   | "c14" :: args => cmdC14 args
   | "c11" :: args => cmdC11 args
   | "c17" :: args => cmdC17 args
+  | "c10" :: args => cmdC10 args
+  | "c10sel" :: args => cmdC10Sel args
   | _ => return ["error unknown-command"]
 
 partial def loop (hin : IO.FS.Stream) (hout : IO.FS.Stream) : IO Unit := do
